@@ -22,7 +22,7 @@ SPEC = "das/MCDAS.tla"
 
 BASE = dict(MaxHeight=3, Range=2, Conc=1, TailH=1, FailBudget=1, CancelBudget=0, StopBudget=1,
             BgStore="TRUE", FixSilentExit="TRUE", FixResumeDone="TRUE", FixRecentCp="TRUE",
-            MaxSteps=1000, SimDepth=1000)
+            MaxSteps=1000, SimDepth=1000, SpawnFirst="FALSE")
 
 ALL_INV = "TypeOK NoLostHeight SampledHeadSound CheckpointCovers ConcBound DoneExact EveryJobReports"
 
@@ -33,6 +33,7 @@ def write_cfg(ctx, name, consts, invariants=ALL_INV, props="BackoffMonotone", mc
     if not mc:
         c.pop("MaxSteps")
         c.pop("SimDepth")
+        c.pop("SpawnFirst")
     lines = ["CONSTANTS"] + ["  %s = %s" % (k, v) for k, v in c.items()]
     if mc:
         lines += ["INIT MCInit", "NEXT MCNext", "VIEW View"]
@@ -126,7 +127,7 @@ def run(ctx, prop):
     depth = 40
     for i, consts in enumerate([dict(MaxHeight=6, Range=2, Conc=2, FailBudget=3, CancelBudget=1, StopBudget=2),
                                 dict(MaxHeight=5, Range=3, Conc=1, FailBudget=2, CancelBudget=1, StopBudget=2)]):
-        consts = dict(consts, SimDepth=depth, MaxSteps=depth)
+        consts = dict(consts, SimDepth=depth, MaxSteps=depth, SpawnFirst="TRUE")
         cfg = write_cfg(ctx, "sim%d" % i, consts, invariants=ALL_INV)
         simdir = os.path.join(ctx.work, "sim%d" % i)
         os.makedirs(simdir, exist_ok=True)
